@@ -26,6 +26,7 @@ import (
 
 	"github.com/compose-spec/compose-go/v2/loader"
 	"github.com/compose-spec/compose-go/v2/paths"
+	"github.com/compose-spec/compose-go/v2/utils"
 
 	"verifharness/core"
 )
@@ -97,6 +98,81 @@ func c12Remotes(prefixes []string) []paths.RemoteResource {
 	return l
 }
 
+// ---------------------------------------------------------------- a hostile process working directory (round 5)
+//
+// Included / extended files are first resolved against a directory RELATIVE to the project directory; whatever the
+// real code does with such an intermediate value must not depend on the working directory of the process.  An empty
+// private cwd (rounds 1-4) hid a lookup of develop.watch paths from there; now the cwd holds a symbolic link for the
+// first component of every relative directory a case uses, all pointing to an existing decoy directory.
+
+// c12PlantDecoy: in the private scratch cwd (…/cwd-<pid>/p/q/r), make the first real component of the relative
+// path `rel` a symbolic link to a decoy directory (leading ".." climb to q, p; further up is not ours: nothing planted).
+func c12PlantDecoy(rel string) func() {
+	noop := func() {}
+	if c12ScratchCwd == "" || rel == "" || filepath.IsAbs(rel) {
+		return noop
+	}
+	parts := strings.Split(filepath.Clean(rel), "/")
+	dir := c12ScratchCwd
+	up := 0
+	for len(parts) > 0 && parts[0] == ".." {
+		parts = parts[1:]
+		dir = filepath.Dir(dir)
+		up++
+	}
+	if up > 2 || len(parts) == 0 || parts[0] == "." || parts[0] == "" {
+		return noop
+	}
+	target := filepath.Join(filepath.Dir(filepath.Dir(filepath.Dir(c12ScratchCwd))), "decoy-target")
+	if os.MkdirAll(target, 0o755) != nil {
+		return noop
+	}
+	link := filepath.Join(dir, parts[0])
+	if _, err := os.Lstat(link); err == nil {
+		return noop // a directory of the scratch chain itself (p, q, r) or an older link
+	}
+	if os.Symlink(target, link) != nil {
+		return noop
+	}
+	return func() { os.Remove(link) }
+}
+
+// c12DecoyCwd: a fresh working directory for a whole load whose entries (and those of its two ancestors) mirror the
+// names found in the project directory (and its two ancestors), every one a symbolic link to a decoy directory.
+func c12DecoyCwd(projDir string) func() {
+	noop := func() {}
+	base, err := os.MkdirTemp(os.Getenv("VERIF_SCRATCH"), "verif-C12-cwd-") // inside the run's scratch directory when there is one: removed with it
+	if err != nil {
+		return noop
+	}
+	target := filepath.Join(base, "decoy-target")
+	cwd := filepath.Join(base, "p", "q", "r")
+	if os.MkdirAll(target, 0o755) != nil || os.MkdirAll(cwd, 0o755) != nil {
+		os.RemoveAll(base)
+		return noop
+	}
+	src, dst := filepath.Clean(projDir), cwd
+	for level := 0; level < 3; level++ {
+		if ents, err := os.ReadDir(src); err == nil {
+			for _, e := range ents {
+				os.Symlink(target, filepath.Join(dst, e.Name())) // fails for p/q/r themselves: fine
+			}
+		}
+		src, dst = filepath.Dir(src), filepath.Dir(dst)
+	}
+	old, _ := os.Getwd()
+	if os.Chdir(cwd) != nil {
+		os.RemoveAll(base)
+		return noop
+	}
+	return func() {
+		if old != "" {
+			os.Chdir(old)
+		}
+		os.RemoveAll(base)
+	}
+}
+
 // ---------------------------------------------------------------- string-level correspondence
 
 type joinArgs struct {
@@ -148,6 +224,7 @@ func realResolve(raw json.RawMessage) any {
 	if c := c12Prepare(a.Home); c != "" {
 		return map[string]any{"bad": "fs-collision " + c}
 	}
+	defer c12PlantDecoy(a.Wd)() // a relative base: the results are relative, the model consults no file system
 	m, bad := c12Resolve(core.DecodeValRaw(a.Tree), a.Wd, a.Remotes)
 	if bad != nil {
 		return bad
@@ -428,12 +505,12 @@ func init() {
 					ascii = false
 				}
 			}
-			if r.Abs != d.Abs || (ascii && r.Vol != d.Vol) {
-				return core.Disagree("Paths.isWindowsAbs? ≠ paths.isWindowsAbs")
-			}
 			// oracle: the real function against the SPECIFICATION of "Windows-absolute" (Spec.winAbs: drive or UNC form)
 			if r.Abs != d.Spec {
 				return core.Fail("winabs-spec", fmt.Sprintf("isWindowsAbs(%q) = %v but the specification (drive letter or \\\\server\\share form) says %v", a.P, r.Abs, d.Spec))
+			}
+			if r.Abs != d.Abs || (ascii && r.Vol != d.Vol) {
+				return core.Disagree("Paths.isWindowsAbs? ≠ paths.isWindowsAbs")
 			}
 			return nil
 		},
@@ -623,6 +700,7 @@ func init() {
 			if c := c12Prepare(a.Home); c != "" {
 				return map[string]any{"bad": "fs-collision " + c}
 			}
+			defer c12PlantDecoy(a.Rel)() // the first-stage results are relative: nothing may be looked up from the process cwd
 			t := core.DecodeValRaw(a.Tree)
 			one, bad := c12Resolve(core.DeepCopyVal(t), filepath.Join(a.Wd, a.Rel), a.Remotes)
 			if bad != nil {
@@ -707,9 +785,18 @@ func init() {
 					return map[string]any{"bad": err.Error()}
 				}
 			}
-			want, wantErr := c12PhysicalPath(filepath.Join(root, a.Wd, a.Path))
+			written := a.Path // the develop.watch path as written; "$ROOT/…" = written absolute (possibly not clean)
+			full := filepath.Join(root, a.Wd, a.Path)
+			writtenAbs := strings.HasPrefix(a.Path, "$ROOT")
+			if writtenAbs {
+				written = root + strings.TrimPrefix(a.Path, "$ROOT")
+				full = written
+			}
+			want, wantErr := c12PhysicalPath(full)
 			scrub := func(x string) string { return strings.ReplaceAll(x, root, "$ROOT") }
 			res := map[string]any{"want": scrub(want), "want_err": wantErr != nil}
+			unclean := writtenAbs && filepath.Clean(written) != written
+			res["unclean"] = unclean
 			// the link table of the Lean model (Model/PathsSymlink.lean): every symbolic link at its physical location
 			// (Walk does not follow links) with what EvalSymlinks says about it
 			comps := func(p string) []string { return strings.Split(strings.TrimPrefix(filepath.Clean(p), "/"), "/") }
@@ -725,8 +812,8 @@ func init() {
 				return nil
 			})
 			res["links"] = links
-			res["path"] = comps(filepath.Join(root, a.Wd, a.Path))
-			t, get := attrTree("develop.watch.path", a.Path)
+			res["path"] = comps(full)
+			t, get := attrTree("develop.watch.path", written)
 			m1, bad := c12Resolve(t, filepath.Join(root, a.Wd), nil)
 			if bad != nil {
 				res["first_err"] = bad
@@ -735,6 +822,19 @@ func init() {
 			f, _ := get(m1).(string)
 			res["first"] = scrub(f)
 			res["first_raw"] = f
+			if unclean {
+				// what the answer denotes: an absolute path written with "." / ".." / "//" may be left as written or
+				// resolved, but it must still name the same file
+				if ph, err := c12PhysicalPath(f); err == nil {
+					res["first_phys"] = scrub(ph)
+				}
+				// … as the operating system reads it (".." after a symbolic link is not lexical): when the written path
+				// exists, the answer must exist and be the same file
+				if in, err := os.Stat(written); err == nil {
+					out, err := os.Stat(f)
+					res["same_file"] = err == nil && os.SameFile(in, out)
+				}
+			}
 			m2, bad := c12Resolve(core.DeepCopyVal(any(m1)).(map[string]any), filepath.Join(root, a.Wd), nil)
 			if bad != nil {
 				res["second_err"] = bad
@@ -759,20 +859,23 @@ func init() {
 			}
 			var a symlinkArgs
 			json.Unmarshal(args, &a)
-			// correspondence: the link-table model of ResolveSymbolicLink against the real function
-			{
+			// correspondence: the link-table model of ResolveSymbolicLink against the real function.
+			// Evaluated AFTER the oracle below: a failing input (the real code breaks the property) outranks a broken tie.
+			tie := func() *core.Verdict {
 				var rr struct {
 					FirstRaw *string         `json:"first_raw"`
 					FirstErr json.RawMessage `json:"first_err"`
 					Path     []string        `json:"path"`
 					Bad      string          `json:"bad"`
+					Unclean  bool            `json:"unclean"`
 				}
 				var d struct {
 					Ok  []string `json:"ok"`
 					Err bool     `json:"err"`
 					Bad string   `json:"bad"`
 				}
-				if json.Unmarshal(real, &rr) == nil && rr.Bad == "" && rr.Path != nil && json.Unmarshal(drv, &d) == nil {
+				// (an absolute path that is not clean is outside the model: Sym.resolveStr works on the cleaned components)
+				if json.Unmarshal(real, &rr) == nil && rr.Bad == "" && rr.Path != nil && !rr.Unclean && json.Unmarshal(drv, &d) == nil {
 					model := "/" + strings.Join(d.Ok, "/")
 					switch {
 					case d.Bad != "":
@@ -783,6 +886,7 @@ func init() {
 						return core.Disagree(fmt.Sprintf("Sym.resolveSym ≠ ResolveSymbolicLink: model %s, real %s", model, *rr.FirstRaw))
 					}
 				}
+				return nil
 			}
 			var r struct {
 				First     *string         `json:"first"`
@@ -792,17 +896,38 @@ func init() {
 				FirstErr  json.RawMessage `json:"first_err"`
 				SecondErr json.RawMessage `json:"second_err"`
 				Bad       string          `json:"bad"`
+				Unclean   bool            `json:"unclean"`
+				FirstPhys *string         `json:"first_phys"`
+				SameFile  *bool           `json:"same_file"`
 			}
 			json.Unmarshal(real, &r)
 			if r.Bad != "" {
 				return core.Skip(r.Bad)
 			}
+			if r.Unclean && !r.WantErr {
+				// written absolute, not clean: "absolute paths are left as written" or resolved — either way the same file
+				switch {
+				case r.First == nil:
+					return core.Fail("symlink:"+a.Name+":error", fmt.Sprintf("watch path %q: resolution fails (%s), expected a path for %s", a.Path, r.FirstErr, r.Want))
+				case r.SameFile != nil && !*r.SameFile:
+					return core.Fail("symlink-unclean:names-another-file", fmt.Sprintf("absolute watch path %q exists (physically %s) but is rewritten to %s, which does not name that file (%s)", a.Path, r.Want, *r.First, a.Name))
+				case r.SameFile == nil && (r.FirstPhys == nil || *r.FirstPhys != r.Want):
+					return core.Fail("symlink-unclean:names-another-file", fmt.Sprintf("absolute watch path %q (physically %s) is rewritten to %s, which names %v (%s)", a.Path, r.Want, *r.First, r.FirstPhys, a.Name))
+				case r.Second == nil || *r.Second != *r.First:
+					return core.Fail("nonidempotent:develop.watch:"+a.Name, fmt.Sprintf("watch path %q resolves to %s, resolving again gives %v %s", a.Path, *r.First, r.Second, r.SecondErr))
+				}
+				return nil
+			}
 			if r.WantErr {
-				// a dangling link or a link loop: an error is the right answer (no crash, see above)
+				// a dangling link or a link loop: an error is the right answer (no crash, see above); an absolute path
+				// that is not clean may also come back exactly as written (absolute paths are left as written)
+				if r.First != nil && r.Unclean && *r.First == a.Path {
+					return nil
+				}
 				if r.First != nil {
 					return core.Fail("symlink:"+a.Name+":no-error", fmt.Sprintf("watch path %q goes through a broken symbolic link but resolves to %s", a.Path, *r.First))
 				}
-				return nil
+				return tie()
 			}
 			if r.First == nil {
 				return core.Fail("symlink:"+a.Name+":error", fmt.Sprintf("watch path %q: resolution fails (%s), expected %s", a.Path, r.FirstErr, r.Want))
@@ -815,6 +940,116 @@ func init() {
 			}
 			if r.Second == nil || *r.Second != *r.First {
 				return core.Fail("nonidempotent:develop.watch:"+a.Name, fmt.Sprintf("watch path %q resolves to %s, resolving again gives %v %s", a.Path, *r.First, r.Second, r.SecondErr))
+			}
+			return tie()
+		},
+	})
+
+	// ---- utils.ResolveSymbolicLink on strings (round 5): the process sits in a directory of the link tree and the
+	// function is handed (a) the path as written — RELATIVE: it is not anchored, nothing may be looked up, the property
+	// wants it back unchanged (the base directory is joined later) — and (b) the absolute path.
+	// Correspondence: Sym.resolveStr over the link table read off the temp directory.
+	core.Register("c12.symstr", &core.CheckDef{
+		Timeout: c12Timeout,
+		Real: func(raw json.RawMessage) any {
+			var a symlinkArgs
+			json.Unmarshal(raw, &a)
+			files := map[string]string{}
+			for _, d := range a.Dirs {
+				files[d+"/.keep"] = ""
+			}
+			root, err := core.Materialize(files)
+			defer os.RemoveAll(root)
+			if err != nil {
+				return map[string]any{"bad": err.Error()}
+			}
+			for _, l := range a.Links {
+				target := l[1]
+				if strings.HasPrefix(target, "$ROOT") {
+					target = root + strings.TrimPrefix(target, "$ROOT")
+				}
+				os.MkdirAll(filepath.Dir(filepath.Join(root, l[0])), 0o755)
+				if err := os.Symlink(target, filepath.Join(root, l[0])); err != nil {
+					return map[string]any{"bad": err.Error()}
+				}
+			}
+			comps := func(p string) []string { return strings.Split(strings.TrimPrefix(filepath.Clean(p), "/"), "/") }
+			links := [][]any{}
+			filepath.Walk(root, func(p string, info os.FileInfo, err error) error {
+				if err == nil && info.Mode()&os.ModeSymlink != 0 {
+					if t, err := filepath.EvalSymlinks(p); err == nil {
+						links = append(links, []any{comps(p), comps(t)})
+					} else {
+						links = append(links, []any{comps(p), nil})
+					}
+				}
+				return nil
+			})
+			old, _ := os.Getwd()
+			defer os.Chdir(old)
+			if err := os.Chdir(filepath.Join(root, a.Wd)); err != nil {
+				return map[string]any{"bad": "chdir: " + err.Error()}
+			}
+			in := a.Path
+			if strings.HasPrefix(in, "$ROOT") {
+				in = filepath.Clean(root + strings.TrimPrefix(in, "$ROOT"))
+			}
+			res := map[string]any{"links": links, "in": in, "root": root}
+			if out, err := utils.ResolveSymbolicLink(in); err != nil {
+				res["err"] = true
+			} else {
+				res["out"] = out
+			}
+			return res
+		},
+		DriverOp: "c12.symstr",
+		DriverArgs: func(args, real json.RawMessage) any {
+			var r struct {
+				Links json.RawMessage `json:"links"`
+				In    string          `json:"in"`
+			}
+			json.Unmarshal(real, &r)
+			return map[string]any{"links": r.Links, "path": r.In}
+		},
+		Judge: func(args, real, drv json.RawMessage) *core.Verdict {
+			if v := core.CrashVerdict(real); v != nil {
+				return v
+			}
+			var a symlinkArgs
+			json.Unmarshal(args, &a)
+			var r struct {
+				In   string  `json:"in"`
+				Root string  `json:"root"`
+				Out  *string `json:"out"`
+				Err  bool    `json:"err"`
+				Bad  string  `json:"bad"`
+			}
+			var d struct {
+				Ok  *string `json:"ok"`
+				Err bool    `json:"err"`
+			}
+			if json.Unmarshal(real, &r) != nil || json.Unmarshal(drv, &d) != nil {
+				return core.Disagree("malformed exchange")
+			}
+			if r.Bad != "" {
+				return core.Skip(r.Bad)
+			}
+			scrub := func(x string) string { return strings.ReplaceAll(x, r.Root, "$ROOT") }
+			// oracle: a relative path comes back as it is, whatever the process directory holds
+			if !filepath.IsAbs(r.In) {
+				if r.Err || r.Out == nil || *r.Out != r.In {
+					got := "an error"
+					if r.Out != nil {
+						got = scrub(*r.Out)
+					}
+					return core.Fail("symlink-relative:looked-up-from-process-cwd", fmt.Sprintf("ResolveSymbolicLink(%q) with the process in %q answers %s: the components of a path that is not anchored yet were looked up from the working directory of the process (%s)", r.In, a.Wd, got, a.Name))
+				}
+			}
+			switch {
+			case d.Err != r.Err:
+				return core.Disagree(fmt.Sprintf("Sym.resolveStr ≠ ResolveSymbolicLink(%q): model err=%v, real err=%v", scrub(r.In), d.Err, r.Err))
+			case !r.Err && (d.Ok == nil || r.Out == nil || *d.Ok != *r.Out):
+				return core.Disagree(fmt.Sprintf("Sym.resolveStr ≠ ResolveSymbolicLink(%q): model %v, real %v", scrub(r.In), d.Ok, r.Out))
 			}
 			return nil
 		},
@@ -949,6 +1184,14 @@ var c12SymlinkCases = []symlinkArgs{
 	{Name: "last-component", Dirs: []string{"p/real"}, Links: [][]string{{"p/link", "real"}}, Wd: "p", Path: "link"},
 	{Name: "outside-wd", Dirs: []string{"o/real/s", "p"}, Links: [][]string{{"o/link", "real"}}, Wd: "p", Path: "../o/link/s"},
 	{Name: "wd-is-link", Dirs: []string{"real/s"}, Links: [][]string{{"p", "real"}}, Wd: "p", Path: "s/x"},
+	// written absolute and not clean (round 5): the clean spelling of the link occurs as plain text further up
+	{Name: "abs-dotdot-prefix", Dirs: []string{"t/y", "lx"}, Links: [][]string{{"l", "$ROOT/t"}}, Wd: ".", Path: "$ROOT/lx/../l/y"},
+	{Name: "abs-dotdot-sibling", Dirs: []string{"data/app/src", "srv/app-compose"}, Links: [][]string{{"srv/app", "$ROOT/data/app"}}, Wd: "srv/app-compose", Path: "$ROOT/srv/app-compose/../app/src"},
+	{Name: "abs-dotdot", Dirs: []string{"t/y", "a"}, Links: [][]string{{"l", "$ROOT/t"}}, Wd: ".", Path: "$ROOT/a/../l/y"},
+	{Name: "abs-dot", Dirs: []string{"t/y"}, Links: [][]string{{"l", "$ROOT/t"}}, Wd: ".", Path: "$ROOT/./l/y"},
+	{Name: "abs-double-slash", Dirs: []string{"t/y"}, Links: [][]string{{"l", "$ROOT/t"}}, Wd: ".", Path: "$ROOT//l/y"},
+	{Name: "abs-trailing-slash", Dirs: []string{"t/y"}, Links: [][]string{{"l", "$ROOT/t"}}, Wd: ".", Path: "$ROOT/l/y/"},
+	{Name: "abs-clean", Dirs: []string{"t/y"}, Links: [][]string{{"l", "$ROOT/t"}}, Wd: ".", Path: "$ROOT/l/y"},
 	{Name: "dangling", Dirs: []string{"p"}, Links: [][]string{{"p/link", "missing"}}, Wd: "p", Path: "link/x"},
 	{Name: "loop", Dirs: []string{"p"}, Links: [][]string{{"p/a", "b"}, {"p/b", "a"}}, Wd: "p", Path: "a/x"},
 }
@@ -1327,6 +1570,29 @@ func runC12(ctx *core.Ctx) {
 			}
 		}
 	}
+	// round 5: the same link trees, the function called directly — on the path as written (relative) with the process in
+	// the project directory, in its parent and in a sibling, and on the absolute clean path
+	symstr := func(c symlinkArgs, kind string) {
+		if strings.HasPrefix(c.Path, "$ROOT") {
+			return // written absolute: the c12.symlink stream
+		}
+		for _, wd := range []string{c.Wd, filepath.Dir(c.Wd), "."} {
+			r := c
+			r.Wd = wd
+			ctx.Add("c12.symstr", r)
+			ctx.Count("symstr:relative:" + kind)
+			r.Path = filepath.Join(c.Wd, c.Path) // what a first stage against the relative directory `Wd` hands over
+			ctx.Add("c12.symstr", r)
+			ctx.Count("symstr:relative-joined:" + kind)
+		}
+		r := c
+		r.Path = "$ROOT/" + filepath.Join(c.Wd, c.Path)
+		ctx.Add("c12.symstr", r)
+		ctx.Count("symstr:absolute:" + kind)
+	}
+	for _, c := range c12SymlinkCases {
+		symstr(c, "named")
+	}
 	for _, c := range c12SymlinkCases {
 		ctx.Add("c12.symlink", c)
 		ctx.Count("symlink:" + c.Name)
@@ -1359,6 +1625,19 @@ func runC12(ctx *core.Ctx) {
 		c.Path = pick(names) + "/" + pick(names) + "/" + pick([]string{"x", "a", "b"})
 		ctx.Add("c12.symlink", c)
 		ctx.Count("symlink:random")
+		if i%2 == 0 {
+			// the same tree, the path written absolute with a detour through a name that starts like another one
+			u := c
+			u.Name = "random-abs-unclean"
+			first := pick(names)
+			u.Dirs = append(append([]string{}, c.Dirs...), "p/"+first+"x")
+			u.Path = "$ROOT/p/" + first + "x/../" + pick([]string{first, pick(names)}) + "/" + pick(names) + pick([]string{"", "/.", "//x"})
+			ctx.Add("c12.symlink", u)
+			ctx.Count("symlink:random-abs-unclean")
+		}
+		if i%3 == 0 {
+			symstr(c, "random")
+		}
 	}
 
 	runC12Loads(ctx)
